@@ -52,6 +52,24 @@ def queries(tier):
     for n0 in (5,):
         qs.append(Query("allocfail-idmap-grow-then-use", "c20/idmap_grow.c", tus=["core/list.c"], env=ENV + ["env_aio.c"], defs={}, unwind=40, timeout=600, mem_gb=8,
                         params={"entry_point": "nni_id_set at the grow threshold", "failing_allocation": "the larger table", "then": "further sets up to 9 entries, get of any key"}))
+    # more entry points, through the harnesses of other properties with the failing allocation chosen there
+    from props import C03, C13, C10, C02, C11
+    for q in C03.queries(tier):
+        if q.name.startswith("sock-create-allocfail"):
+            q.group = "~" + q.group
+            qs.append(q)
+    qs.append(Query("allocfail-device", "c13/device.c", tus=C13.DEV_TUS, env=C13.DEV_ENV, defs={"KIND": 0, "FAILDEV": 1}, unwind=10, timeout=120, group="~c13/device.c#fail",
+                    params={"entry_point": "nni_device (nng_device)", "failing_allocation": "the device object"}))
+    qs.append(Query("allocfail-ctx-open", "c10/handles.c", tus=["core/list.c"], env=["env_alloc.c", "env_misc.c", "env_sync.c", "env_aio.c", "env_idmap.c", "env_libc.c"],
+                    defs={"MODE": 3}, unwind=12, timeout=120, group="~c10/handles.c#fail", params={"entry_point": "nni_ctx_open (nng_ctx_open)", "failing_allocation": "the context"}))
+    for k in (0, 1):
+        qs.append(Query("allocfail-taskq-init-k%d" % k, "c02/taskq.c", tus=["core/list.c"], env=ENV, defs={"FAILK": k, "NT": 2}, unwind=20, timeout=120, group="~c02/taskq.c#fail",
+                        params={"entry_point": "nni_taskq_init", "failing_allocation": k}))
+    for nb, copymax in ((12, 2), (12, 8), (16, 2)):
+        qs.append(Query("allocfail-udp-rx-nb%d-copymax%d" % (nb, copymax), "c11/udp_rx.c", tus=["core/list.c", "core/lmq.c"],
+                        env=["env_alloc.c", "env_misc.c", "env_sync.c", "env_aio.c", "env_msg.c", "env_pipe.c", "env_idmap.c", "env_libc.c"],
+                        defs={"OP": 0, "NB": nb, "FROM": 0, "FAILMSG": 1, "COPYMAX": copymax}, cdefs=["-DENV_MSG_CAP=24"], unwind=30, timeout=300, group="~c11/udp_rx.c#fail",
+                        params={"entry_point": "udp_rx_cb / udp_recv_data", "failing_allocation": "the message for the payload (copy and loan paths)"}))
     # HTTP head parser: the connection object's setters fail with NNG_ENOMEM (the parser itself allocates nothing)
     HREQ = ["GET /a HTTP/1.1\r\nK: v\r\n\r\n", None, None, "A /b HTTP/2\r\nK: v\r\nL: w\r\n\r\n"]
     for nm, ti, extra in (("req-header1", 0, {"FAILHDR": 1}), ("req-header1of2", 3, {"FAILHDR": 1}), ("req-header2of2", 3, {"FAILHDR": 2}), ("req-uri", 0, {"FAILURI": 1}),
